@@ -160,6 +160,7 @@ type Violation struct {
 	Definite bool
 	PathCond []string
 	Prefix  []Choice
+	Preempts int // context switches forced by the explorer on this path (schedule-dependent violation if > 0)
 }
 
 type NdVal struct {
